@@ -545,6 +545,12 @@ func (p *pkgInfo) analyse(fi *funcInfo, apiTables map[string]bool) {
 						return true
 					}
 				}
+				// the RIB calls its registered readvertisers (interface RibReadvertise; the one implementation is
+				// mgmt.NlsrReadvertiser) while holding the RIB mutex
+				if (f.Sel.Name == "Announce" || f.Sel.Name == "Withdraw") && len(p.byName[f.Sel.Name]) == 0 {
+					fi.ext["NlsrReadvertiser."+f.Sel.Name] = true
+					return true
+				}
 				// method call: every same-package method of that name (no type information), unless on a sync field
 				if _, _, viaSync, _ := p.root(f.X); viaSync || p.isSyncField(f.Sel.Name) {
 					return true
@@ -1023,7 +1029,9 @@ func main() {
 	repo := os.Args[1]
 	tp := loadPkg(filepath.Join(repo, "fw", "table"))
 	fp := loadPkg(filepath.Join(repo, "fw", "face"))
-	tableID := map[string]int{"FibStrategyTree": 0, "FibStrategyHashTable": 1, "RibTable": 2, "Table": 3}
+	mp := loadPkg(filepath.Join(repo, "fw", "mgmt"))
+	tableID := map[string]int{"FibStrategyTree": 0, "FibStrategyHashTable": 1, "RibTable": 2, "Table": 3, "NlsrReadvertiser": 4}
+	pkgOf := map[string]*pkgInfo{"FibStrategyTree": tp, "FibStrategyHashTable": tp, "RibTable": tp, "Table": fp, "NlsrReadvertiser": mp}
 	apiTables := map[string]bool{}
 	for k := range tableID {
 		apiTables[k] = true
@@ -1038,7 +1046,7 @@ func main() {
 	}
 	var facts []outFact
 	mutexOf := map[int]string{}
-	for _, pk := range []*pkgInfo{tp, fp} {
+	for _, pk := range []*pkgInfo{tp, fp, mp} {
 		for _, fi := range pk.funcs {
 			pk.analyse(fi, apiTables)
 		}
@@ -1109,7 +1117,7 @@ func main() {
 		}
 		return pk.inplace[a]
 	}
-	for _, pk := range []*pkgInfo{tp, fp} {
+	for _, pk := range []*pkgInfo{tp, fp, mp} {
 		var keys []string
 		for k := range pk.funcs {
 			keys = append(keys, k)
@@ -1121,7 +1129,7 @@ func main() {
 				continue
 			}
 			id, isTable := tableID[fi.recvType]
-			if !isTable || (pk == fp) != (fi.recvType == "Table") {
+			if !isTable || pkgOf[fi.recvType] != pk {
 				continue
 			}
 			of := outFact{table: id, name: fi.key, reads: fi.reads, writes: fi.writes, bracket: "None"}
@@ -1185,8 +1193,8 @@ func main() {
 
 	var sb strings.Builder
 	sb.WriteString("(* GENERATED by translators/tables/lockfacts from fw/table/*.go and fw/face/*.go -- do not edit.\n")
-	sb.WriteString("   Tables: 0 FibStrategyTree, 1 FibStrategyHashTable, 2 RibTable, 3 face.Table.  Mutex i guards table i:\n")
-	for i := 0; i < 4; i++ {
+	sb.WriteString("   Tables: 0 FibStrategyTree, 1 FibStrategyHashTable, 2 RibTable, 3 face.Table, 4 mgmt.NlsrReadvertiser.  Mutex i guards table i:\n")
+	for i := 0; i < 5; i++ {
 		m := mutexOf[i]
 		if m == "" {
 			m = "(none: the table's fields are sync.Map / atomic values)"
@@ -1207,7 +1215,7 @@ func main() {
 	sb.WriteString("From Tables Require Import ModelLock.\nLocal Open Scope string_scope.\n\n")
 	sb.WriteString("Definition gen_mu (t : nat) : nat := t.\n")
 	sb.WriteString("Definition gen_rank (m : nat) : nat :=\n  match m with\n")
-	for i := 0; i < 4; i++ {
+	for i := 0; i < 5; i++ {
 		fmt.Fprintf(&sb, "  | %d => %d\n", i, rank[i])
 	}
 	fmt.Fprintf(&sb, "  | _ => 0\n  end.\nDefinition gen_rank_bound : nat := %d.\n\n", maxRank)
